@@ -594,6 +594,11 @@ fn geo_marker(ttl: u8) -> String {
     format!("Zq{:02}burg", ttl % 100)
 }
 
+/// the position of a marker hop with an odd ttl (distinctive decimals: no statistic prints three of them)
+fn geo_coordinates(ttl: u8) -> (f64, f64) {
+    (10.777 + f64::from(ttl) / 2.0, -60.333 + f64::from(ttl))
+}
+
 fn write_mmdb(path: &std::path::Path) -> std::io::Result<()> {
     let node_count: u32 = 255;
     // data section: one city record per odd first octet 101..=199
@@ -601,21 +606,52 @@ fn write_mmdb(path: &std::path::Path) -> std::io::Result<()> {
     let mut offset_of = [None::<u32>; 256];
     for octet in (101u32..200).step_by(2) {
         offset_of[octet as usize] = Some(data.len() as u32);
-        mm_map(&mut data, 2);
+        // the city has an English name only (as small towns have in GeoLite2); subdivision, country and continent are
+        // the same for every record and are named in English and German
+        mm_map(&mut data, 5);
         mm_str(&mut data, "city");
         mm_map(&mut data, 1);
         mm_str(&mut data, "names");
         mm_map(&mut data, 1);
         mm_str(&mut data, "en");
         mm_str(&mut data, &geo_marker((octet - 100) as u8));
+        mm_str(&mut data, "continent");
+        mm_map(&mut data, 1);
+        mm_str(&mut data, "names");
+        mm_map(&mut data, 2);
+        mm_str(&mut data, "de");
+        mm_str(&mut data, "Tvkontinent");
+        mm_str(&mut data, "en");
+        mm_str(&mut data, "Tvcontinent");
+        mm_str(&mut data, "country");
+        mm_map(&mut data, 2);
+        mm_str(&mut data, "iso_code");
+        mm_str(&mut data, "TV");
+        mm_str(&mut data, "names");
+        mm_map(&mut data, 2);
+        mm_str(&mut data, "de");
+        mm_str(&mut data, "Tvreich");
+        mm_str(&mut data, "en");
+        mm_str(&mut data, "Tvcountry");
         mm_str(&mut data, "location");
         mm_map(&mut data, 3);
         mm_str(&mut data, "accuracy_radius");
         mm_u16(&mut data, 50);
         mm_str(&mut data, "latitude");
-        mm_f64(&mut data, 10.0 + f64::from(octet - 100) / 2.0);
+        mm_f64(&mut data, geo_coordinates((octet - 100) as u8).0);
         mm_str(&mut data, "longitude");
-        mm_f64(&mut data, -60.0 + f64::from(octet - 100));
+        mm_f64(&mut data, geo_coordinates((octet - 100) as u8).1);
+        mm_str(&mut data, "subdivisions");
+        mm_array(&mut data, 1);
+        mm_map(&mut data, 2);
+        mm_str(&mut data, "iso_code");
+        mm_str(&mut data, "TQ");
+        mm_str(&mut data, "names");
+        mm_map(&mut data, 2);
+        mm_str(&mut data, "de");
+        mm_str(&mut data, "Tvprovinz");
+        mm_str(&mut data, "en");
+        mm_str(&mut data, "Tvprovince");
     }
     let mut db: Vec<u8> = vec![];
     let rec = |v: u32| [(v >> 16) as u8, (v >> 8) as u8, v as u8];
@@ -719,7 +755,8 @@ fn new_live(ctx: &Ctx, setup: &Setup) -> Live {
         .collect();
     // `geoip_mode >= 4`: the same display mode with the marker database loaded
     let geoip = match (&ctx.geoip_db, setup.geoip_mode >= 4) {
-        (Some(p), true) => GeoIpLookup::from_file(p, "en".to_string()).unwrap_or_else(|_| GeoIpLookup::empty()),
+        // `geoip_mode >= 8`: the database read under a locale in which the cities have no name (fallback to English)
+        (Some(p), true) => GeoIpLookup::from_file(p, if setup.geoip_mode >= 8 { "de" } else { "en" }.to_string()).unwrap_or_else(|_| GeoIpLookup::empty()),
         _ => GeoIpLookup::empty(),
     };
     let app = TuiApp::new(tui_config, ctx.resolver.clone(), geoip, traces);
@@ -896,6 +933,10 @@ impl Live {
             if self.setup.geoip_mode >= 4 {
                 for &(t, _) in self.marks.iter().filter(|&&(t, _)| t <= n && t % 2 == 1 && t < 100) {
                     v.push(geo_marker(t));
+                    // and its position (the map's info panel, the location display mode)
+                    let (lat, long) = geo_coordinates(t);
+                    v.push(lat.to_string());
+                    v.push(long.to_string());
                 }
             }
             v.sort();
@@ -1078,7 +1119,7 @@ fn gen_setup(rng: &mut Rng) -> Setup {
         max_addrs: if rng.chance(1, 4) { Some(rng.range(1, 4) as u8) } else { None },
         columns: (*rng.pick(&all_cols)).to_string(),
         addr_mode: rng.below(3) as u8,
-        geoip_mode: rng.below(8) as u8,
+        geoip_mode: rng.below(12) as u8,
         ext_mode: rng.below(4) as u8,
     }
 }
@@ -1373,6 +1414,10 @@ fn directed() -> Vec<(&'static str, Setup, Vec<Op>)> {
         ("geoip-map-privacy-3-long", geo(Some(3), 2), walk(6)),
         ("geoip-map-privacy-4-location", geo(Some(4), 3), walk(6)),
         ("geoip-map-privacy-off", geo(None, 1), walk(6)),
+        // the database read under a locale in which no city has a name: hops of different cities in one province
+        ("geoip-map-privacy-1-other-locale", geo(Some(1), 4 + 2), walk(6)),
+        ("geoip-map-privacy-2-other-locale", geo(Some(2), 4 + 1), walk(6)),
+        ("geoip-map-privacy-3-other-locale-location", geo(Some(3), 4 + 3), walk(6)),
         // F11(a): flows shown, trace data cleared
         ("flows-clear", simple_setup(1, 64), vec![path(0, &[c(0), c(0), c(0)]), f(), K("toggle_flows"), f(), K("clear_trace_data"), f()]),
         // F11(b): frozen, cleared, selected, unfrozen
